@@ -474,6 +474,36 @@ fn main() {
                 (slot, (sigma, idx))
             })
             .collect();
+        // "every signature produced by a registered signer verifies": the real SingleSignature::verify
+        // on each honest signature, under the key and stake registered at its signer_index
+        {
+            let failing: Vec<u64> = sa
+                .iter()
+                .filter(|s| {
+                    let e = w0.closed.closed_registration_entries.iter().nth(s.signer_index as usize).expect("registered");
+                    s.verify(&w0.params, &e.get_verification_key_for_concatenation(), &e.get_stake(), &w0.avk, &msg).is_err()
+                })
+                .map(|s| s.signer_index)
+                .collect();
+            if let Some(id) = sink.wants() {
+                let d = json!({"registration": w0.leaves.iter().map(|(pi, st)| json!({"key": pi + 1, "stake": st})).collect::<Vec<_>>(),
+                    "m": w0.params.m, "phi_f": w0.params.phi_f, "msg": hexs(&msg),
+                    "honest": honest.iter().map(|(slot, (s, ix))| json!({"slot": slot, "sigma": hexs(&s[..6]), "indexes": ix})).collect::<Vec<_>>()});
+                let key = key_of(&d.to_string());
+                sink.push(Case {
+                    id,
+                    kind: "honest-signatures-verify".into(),
+                    desc: d,
+                    model: None,
+                    impl_obs: coq::ob(failing.is_empty()),
+                    holds: Some(failing.is_empty()),
+                    why: if failing.is_empty() { None } else { Some(format!("the honest single signatures of slots {:?} do not verify", failing)) },
+                    known: None,
+                    nontrivial: !sa.is_empty(),
+                    key,
+                });
+            }
+        }
         let ow = &first[(wi + 1) % n_worlds];
         let junk = Junk {
             other_msg: w0.sign_all(&msg_b).iter().map(|s| { let (a, b, c) = ssig_parts(s); (c, a, b) }).collect(),
